@@ -1143,14 +1143,16 @@ REGISTRY = {
                    "registrations with all status codes, choices of cancelled / not offered courses, existing assignments and instructors, "
                    "kind 'full' and schema versions at and beyond the window) x (track given / omitted / unknown, both ignore flags)",
                    extra_fn=c12_extra), allow_axioms=(),
-        explanation="C12_penalty_position / C12_refuse_* about the transcription Json.read_full of cdedb::read on generic JSON; the rest of the "
-                    "statement (exact participant and course sets, order, limits, instructor indices) is established by exact correspondence of "
-                    "the transcription with the real reader on every generated export and option set, plus two declarative predicates "
-                    "(penalty = position, mandatory refusals) evaluated in Coq on the implementation's own output.",
+        explanation="C12_refinement: the line-by-line transcription Json.read_fields of cdedb::read equals the declarative specification "
+                    "CdeSpec.spec_read for every document and option set (refusals with their reasons included); C12_participants/_order/_kept/"
+                    "_courses/_instructors/_limits/_penalty_position say what the specification contains (exactly the registrations with status "
+                    "participant in the track's part that are not ignored and have a valid choice or instruct; exactly the offered courses in "
+                    "sorted order; limits with defaults; penalty = position); C12_refuse_* the mandatory refusals.  The transcription is tied to the "
+                    "real reader by exact comparison on every generated export and option set (incl. room factor/offset fields as binary32 bit "
+                    "patterns), and two declarative predicates are evaluated in Coq on the implementation's own output.",
         trusted_base=["modelled, not verified: src/io/cdedb.rs read(); serde_json text -> Value (BTreeMap key order) trusted; timestamp parsing "
-                      "and the room factor/offset fields (f64 -> f32) are not modelled (the correspondence runs without those options)"],
-        assumptions=["C12 is claimed as: theorems about the transcription + exact correspondence; the full declarative ProblemOf specification "
-                     "of DESIGN.md is not proved (partial)"]),
+                      "not modelled"],
+        assumptions=[]),
     "C05": dict(mk(spec_none, streams_none, "end to end: generated exports -> real binary --cde (1 thread; track given/omitted, all ignore-flag "
                    "combinations) -> import file parsed -> checked in Coq against the reader model's problem (Cde.import_okb) and the write model",
                    extra_fn=c05_extra), allow_axioms=(),
@@ -1174,11 +1176,13 @@ REGISTRY = {
                    "statuses, other tracks' segments, persona / lodgement / extra course fields, and (without the respective option) course_id "
                    "values and boolean flips of the selected track's segments; both run through the real binary with 1 thread",
                    extra_fn=c13_extra), allow_axioms=(),
-        explanation="C13_other_key (Json lemmas): lookups by the selected track / part key are unaffected by changes under other keys; the reader "
-                    "model gives equal results on every generated twin pair (checked in Coq), and the real binary's verdict, score and written "
-                    "assignments/segments are identical on both.",
-        trusted_base=["modelled, not verified: cdedb.rs read(); the invariance theorem is proved for the lookup layer only, the whole-reader "
-                      "invariance is established per generated pair by evaluation (partial)"],
+        explanation="C13: two exports that agree on the event structure and, for every course and registration, on course_data / reg_data of "
+                    "the selected track (nr, shortname, sizes, fields, the track's segment entry; the part's status entry, the two names, the "
+                    "track's entry) give the same result of the transcription Json.read_fields -- proved through the refinement to the declarative "
+                    "specification (CdeRefine, CdeInvariance); C13_assigned_irrelevant / C13_cancelled_irrelevant: without the respective option "
+                    "existing assignments / the cancelled flag do not enter.  Every generated twin pair is additionally evaluated in Coq and run "
+                    "through the real binary: verdict, score and written assignments/segments are identical.",
+        trusted_base=["modelled, not verified: cdedb.rs read() (tied by the reader correspondence of C12)"],
         assumptions=["one worker thread for equality of the written assignment"]),
 
     "C15": dict(mk(spec_none, streams_none, "single-field corruptions (delete / null / wrong type / negative / out-of-range index / float / list / object) of "
